@@ -81,6 +81,11 @@ func c102monitor(cw *caseWriter, tag string, in []uint64, obs []uint64) {
 
 // snap: component 103 (input starts with TrailingLogs; per server the newest snapshot follows the nextIndex list)
 func c102monitorS(cw *caseWriter, tag string, in []uint64, obs []uint64, snap bool) {
+	c102monitorI(cw, tag, in, obs, snap, false)
+}
+
+// inst: component 104 (two more counters before the acknowledgements)
+func c102monitorI(cw *caseWriter, tag string, in []uint64, obs []uint64, snap bool, inst bool) {
 	if snap {
 		in = in[1:]
 	}
@@ -111,6 +116,8 @@ func c102monitorS(cw *caseWriter, tag string, in []uint64, obs []uint64, snap bo
 		nops++
 	}
 	p := 0
+	lastSnap := make([]uint64, n)
+	wentBack := make([]bool, n)
 	var acked [][2]uint64
 	var maxCommit uint64
 	for step := 0; p < len(obs) && step < nops; step++ {
@@ -140,8 +147,22 @@ func c102monitorS(cw *caseWriter, tag string, in []uint64, obs []uint64, snap bo
 			nodes[i] = nd
 			maxCommit = max(maxCommit, nd.commit)
 			// (after a restart lastApplied is the restored snapshot's index while the volatile commit index starts at 0 again)
+			if snap && len(wentBack) == n && nd.snapIdx < lastSnap[i] {
+				wentBack[i] = true // an InstallSnapshot of a snapshot OLDER than the server's own was executed (a late or repeated request)
+			}
+			if snap && len(lastSnap) == n {
+				if nd.snapIdx > lastSnap[i] {
+					wentBack[i] = false
+				}
+				lastSnap[i] = nd.snapIdx
+			}
 			if (nd.applied > nd.commit && nd.applied > nd.snapIdx) || nd.commit > max(nd.last, nd.snapIdx) {
-				cw.monitor("C05", tag, "commit-index-outside-applied-and-last", "step %d server %d: applied %d commit %d last %d", step, i+1, nd.applied, nd.commit, nd.last)
+				sig := "commit-index-outside-applied-and-last"
+				if snap && wentBack[i] {
+					// F12: installSnapshot accepts a snapshot older than the one the server already has
+					sig += "-after-installing-an-older-snapshot"
+				}
+				cw.monitor("C05", tag, sig, "step %d server %d: applied %d commit %d last %d", step, i+1, nd.applied, nd.commit, nd.last)
 			}
 		}
 		p += 3
@@ -152,6 +173,9 @@ func c102monitorS(cw *caseWriter, tag string, in []uint64, obs []uint64, snap bo
 		// the Apply calls acknowledged by this step: every leader of a term at least the highest term now
 		// holding... (checked against the final state below); here: the acknowledged entry is committed
 		// on the acknowledging side at that index with that payload
+		if inst {
+			p += 2
+		}
 		nacks := int(obs[p])
 		p++
 		for k := 0; k < nacks; k++ {
@@ -195,7 +219,31 @@ func c102monitorS(cw *caseWriter, tag string, in []uint64, obs []uint64, snap bo
 						ea, oka := A.log[i]
 						eb, okb := B.log[i]
 						if oka && okb && ea != eb {
-							cw.monitor("C02", tag, "committed-entries-differ-across-servers", "step %d: index %d is committed at servers %d and %d with different entries %v vs %v", step, i, a+1, b+1, ea, eb)
+							sig := "committed-entries-differ-across-servers"
+							if i <= A.snapIdx || i <= B.snapIdx {
+								// F3-ii: a stale never-committed entry kept in the log store BELOW an installed snapshot
+								sig += "-index-at-or-below-own-snapshot"
+							}
+							cw.monitor("C02", tag, sig, "step %d: index %d is committed at servers %d and %d with different entries %v vs %v (newest snapshots at %d and %d)", step, i, a+1, b+1, ea, eb, A.snapIdx, B.snapIdx)
+							break
+						}
+					}
+				}
+				if a < b && snap {
+					// C04 Log Matching on the real logs (the composed systems with snapshots)
+					var top uint64
+					for idx, ea := range A.log {
+						if eb, ok := B.log[idx]; ok && ea.term == eb.term && idx > top {
+							top = idx
+						}
+					}
+					for idx, ea := range A.log {
+						if eb, ok := B.log[idx]; ok && idx <= top && ea != eb {
+							sig := "log-mismatch-below-common-entry"
+							if idx <= A.snapIdx || idx <= B.snapIdx {
+								sig += "-at-or-below-own-snapshot" // F3-ii
+							}
+							cw.monitor("C04", tag, sig, "step %d: servers %d and %d agree at index %d (same term) but differ at index %d: %v vs %v (newest snapshots at %d and %d)", step, a+1, b+1, top, idx, ea, eb, A.snapIdx, B.snapIdx)
 							break
 						}
 					}
@@ -206,7 +254,12 @@ func c102monitorS(cw *caseWriter, tag string, in []uint64, obs []uint64, snap bo
 						ea, oka := A.log[i]
 						eb, okb := B.log[i]
 						if oka && i > B.snapIdx && (!okb || ea != eb) {
-							cw.monitor("C03", tag, "leader-lacks-committed-entry", "step %d: server %d (term %d) knows index %d committed as %v; leader %d of term %d holds %v (present %v)", step, a+1, A.term, i, ea, b+1, B.term, eb, okb)
+							sig := "leader-lacks-committed-entry"
+							if i <= A.snapIdx {
+								// F3-ii: what server a holds there is a stale entry below its own installed snapshot, not the committed one
+								sig += "-index-at-or-below-own-snapshot"
+							}
+							cw.monitor("C03", tag, sig, "step %d: server %d (term %d, newest snapshot %d) knows index %d committed as %v; leader %d of term %d holds %v (present %v)", step, a+1, A.term, A.snapIdx, i, ea, b+1, B.term, eb, okb)
 							break
 						}
 					}
@@ -270,6 +323,83 @@ func runC103(cw *caseWriter, tier string, seed uint64, which uint64) {
 			}
 			if in[q] == 11 {
 				cw.stats["c103_snapshot_ops"]++
+			}
+			q += l
+		}
+	})
+}
+
+// component 104 — component 103 plus snapshot transfer: the REAL replicateTo turns to sendLatestSnapshot when an entry
+// it needs has been compacted away; the InstallSnapshot request parks in the transport, is executed by the target's REAL
+// handler at any later time (any number of times), the answer returns to the blocked call; compared with
+// Model/ClusterSnap.v (sstep).  This system contains known finding F3-ii.
+func c104Batch() {
+	evAlone = true
+	sc := bufio.NewScanner(os.Stdin)
+	w := bufio.NewWriter(os.Stdout)
+	defer w.Flush()
+	for sc.Scan() {
+		f := strings.Fields(sc.Text())
+		if len(f) != 2 {
+			continue
+		}
+		var in, obs []uint64
+		var leaders int
+		if strings.HasPrefix(f[1], "D") {
+			k, _ := strconv.Atoi(f[1][1:])
+			in, obs, leaders = c101RunI(c104directed[k], true, c104directed[k][0]+1, true)
+		} else {
+			subseed, _ := strconv.ParseUint(f[1], 10, 64)
+			sub := &rng{s: subseed}
+			n := 2 + sub.intn(4)
+			steps := 90 + sub.intn(110)
+			trail := uint64(1 + sub.intn(2)) // TrailingLogs 0..1
+			in, obs, leaders = c101GenI(sub, n, steps, true, trail, true)
+		}
+		fmt.Fprintf(w, "%s %d %d", f[0], leaders, len(in))
+		for _, x := range in {
+			fmt.Fprintf(w, " %d", x)
+		}
+		fmt.Fprintf(w, " %d", len(obs))
+		for _, x := range obs {
+			fmt.Fprintf(w, " %d", x)
+		}
+		fmt.Fprintln(w)
+	}
+	fmt.Fprintf(w, "#fallbacks %d\n", evFallbacks)
+}
+
+// directed scripts for component 104 (filled in below)
+var c104directed = [][]uint64{
+	// F3-ii in the composed system (found by this component): server 1 installs the snapshot (5,5) and keeps the stale
+	// entry (2, term 3) in its log store; later it holds (6, term 7) like server 3 and differs from it at index 2
+	{1, 3, 0, 1, 0, 1, 2, 1, 1, 2, 1, 3, 1, 1, 2, 1, 3, 2, 2, 1, 3, 1, 3, 11, 1, 11, 1, 8, 1, 2, 2, 2, 11, 1, 1, 3, 2, 3, 1, 3, 3, 1, 2, 3, 2, 3, 3, 2, 5, 1, 1, 2, 2, 2, 3, 2, 2, 1, 3, 2, 3, 11, 2, 8, 2, 1, 3, 3, 7, 2, 501, 11, 2, 10, 1, 10, 1, 10, 0, 8, 2, 3, 3, 4, 10, 2, 12, 3, 8, 2, 3, 2, 4, 13, 2, 3, 12, 1, 8, 2, 1, 2, 3, 13, 2, 1, 7, 2, 502, 11, 2, 10, 2, 11, 2, 10, 1, 10, 3, 10, 2, 7, 2, 503, 5, 3, 8, 2, 3, 2, 5, 10, 5, 99, 12, 8, 14, 2, 11, 2, 10, 3, 10, 0, 11, 3, 4, 3, 5, 3, 0, 1, 7, 2, 504, 1, 3, 4, 3, 6, 1, 2, 2, 2, 3, 1, 10, 1, 15, 2, 1, 5, 16, 0, 17, 0, 2, 3, 2, 3, 3, 2, 1, 1, 2, 1, 2, 2, 1, 3, 3, 3, 1, 3, 1, 2, 3, 1, 3, 1, 1, 2, 1, 2, 3, 1, 2, 2, 1, 3, 3, 1, 3, 16, 0, 8, 1, 3, 6, 1, 10, 6, 12, 12, 11, 2, 10, 5, 8, 2, 3, 6, 7, 10, 6, 8, 1, 3, 6, 6, 10, 8, 99, 12, 15, 14, 1, 8, 1, 2, 6, 4, 10, 8, 1, 3, 1, 3, 10, 6, 5, 2, 1, 3, 2, 3, 1, 2, 3, 2, 3, 3, 1, 10, 8, 3, 3, 2, 11, 2, 16, 0, 11, 1, 1, 2, 2, 2, 3, 3, 2, 3, 2, 2, 1, 3, 2, 1, 1, 2, 2, 2, 3, 2, 2, 1, 3, 2, 3, 3, 2, 1},
+}
+
+func runC104(cw *caseWriter, tier string, seed uint64, which uint64) {
+	r := &rng{s: (seed*7+which)*49979687 + 1}
+	count := 60
+	if tier != "quick" {
+		count = 1000
+	}
+	evBatchesD(cw, "c104batch", "i", 104, count, len(c104directed), r, "c104", func(tag string, in, obs []uint64) {
+		c102monitorI(cw, tag, in, obs, true, true)
+		for q := 2 + int(in[1]); q < len(in); {
+			if in[q] == 99 {
+				q++
+				continue
+			}
+			l := lgOpLen[in[q]]
+			if l == 0 {
+				break
+			}
+			switch in[q] {
+			case 15:
+				cw.stats["c104_snapshot_requests"]++
+			case 16:
+				cw.stats["c104_snapshot_deliveries"]++
+			case 17:
+				cw.stats["c104_snapshot_answers_processed"]++
 			}
 			q += l
 		}
